@@ -524,6 +524,9 @@ func runFedStop(events int) []string {
 }
 
 func exec(kind string, in []string) []string {
+	if kind == "ws" {
+		return runWS(vh.AtoI(in[0]), in[1], in[2], vh.AtoI(in[3]), vh.AtoI(in[4]), vh.AtoI(in[5]))
+	}
 	if kind == "fedstop" {
 		return runFedStop(vh.AtoI(in[0]))
 	}
